@@ -729,6 +729,63 @@ func plConcurrent(ep int, seed uint64, tier string) (res plResult) {
 	return
 }
 
+// ---------------------------------------------------------------------------------------------
+// (c) thorough tier only: the schedule of theorem close_race_strands_call (Rv.C04.Life) under the Go scheduler
+// ---------------------------------------------------------------------------------------------
+
+// plRaceStress starts two callers and Close on a fresh synchronous pipe at the same moment. The stranding schedule
+// needs the caller that holds wait number 1 to load `state` after Close's CAS and after the other caller queued:
+// two adjacent atomic operations, so a hit is not expected; when it happens the witness key is stable.
+func plRaceStress(seed uint64, attempts int) (res plResult) {
+	b := cmds.NewBuilder(cmds.NoSlot)
+	hits := 0
+	for k := 0; k < attempts; k++ {
+		srv := NewServer(seed + uint64(k))
+		vp, pk, err := plNewPipe(srv, false)
+		if err != nil {
+			res.fail("pipelife:newpipe", "race", err.Error())
+			return
+		}
+		start := make(chan struct{})
+		var wg sync.WaitGroup
+		retB := make(chan struct{})
+		for g := 0; g < 2; g++ {
+			wg.Add(1)
+			go func(g int) {
+				defer wg.Done()
+				<-start
+				vp.Do(context.Background(), b.Echo().Message(fmt.Sprintf("f%d_%d", k, g)).Build())
+			}(g)
+		}
+		wg.Add(1)
+		go func() { defer wg.Done(); <-start; vp.Close() }()
+		go func() { wg.Wait(); close(retB) }()
+		close(start)
+		ok := waitFor(func() bool {
+			select {
+			case <-retB:
+				return true
+			default:
+				return false
+			}
+		})
+		if !ok {
+			hits++
+			op := fmt.Sprintf("!final %s 1 %d %d", b01(pk.Bg()), pk.State(), pk.Waits())
+			key := "pipelife:hang:race"
+			if pk.State() == 2 && !pk.Bg() {
+				key = "pipelife:queued-call-stranded:close-vs-admission-race"
+			}
+			res.fail(key, op, fmt.Sprintf("attempt %d: a call queued behind a rejected holder of wait number 1 never returned after Close (state=%d bgState started=%v waits=%d)", k, pk.State(), pk.Bg(), pk.Waits()))
+			res.emit(op, "ok")
+			break
+		}
+		vp.Close()
+	}
+	res.hits = append(res.hits, fmt.Sprintf("pipelife:race-attempts:%d:hits:%d", attempts, hits))
+	return
+}
+
 func runPipeLife(c *Ctx) {
 	nseq, nconc := c.N, c.N/2
 	type job struct {
@@ -767,6 +824,9 @@ func runPipeLife(c *Ctx) {
 		}(i, j)
 	}
 	wg.Wait()
+	if c.Tier == "thorough" {
+		results = append(results, plRaceStress(c.Rng.Uint64(), 400))
+	}
 	for _, r := range results {
 		for _, l := range r.lines {
 			c.Emit(l.op, l.ans, l.nontriv)
